@@ -448,6 +448,9 @@ type faultyReader struct {
 var errInjectedRead = errors.New("injected read fault")
 
 func (f *faultyReader) Read(p []byte) (int, error) {
+	if f.kind == 3 && f.pos >= f.at {
+		return 0, errInjectedRead // a reader that has failed stays failed
+	}
 	if f.pos >= f.at && !f.done {
 		f.done = true
 		switch f.kind {
